@@ -543,14 +543,21 @@ class Service(object):
         ns['__init__'] = __init__
         return type('Dep', (object,), ns)
 
-    @staticmethod
-    def _fallback(ispec):
+    def _fallback(self, ispec):
         if ispec.fallback is None:
             return None
         kind, aliases = ispec.fallback
         if kind == 'list':
             return list(aliases)
-        return lambda *a, **k: list(aliases)
+        env = self.env
+
+        def fallback_fn(*a, **k):
+            call = env.cur() or {}
+            if call.get('fault') == 'fallback_raises':
+                env.run.fault('fallback_raises')
+                raise RuntimeError('injected: fallback alias function fails')
+            return list(aliases)
+        return fallback_fn
 
     # -- operation class
     def _build_op(self):
@@ -665,6 +672,9 @@ class Interp(object):
                 env.run.fault('discard')
                 if rec is not None:
                     rec.discard_recording()
+            elif k == 'disable':
+                if rec is not None:
+                    rec.disable_recording()
             elif k == 'force':
                 env.run.fault('force_sample')
                 if rec is not None:
@@ -825,6 +835,7 @@ class SpyCassette(object):
         self.run = run
         self.calls = []              # ('create'|'save'|'abort'|'get'..., recording id)
         self.save_raises = False
+        self.abort_raises = False
         self.created = {}
 
     def create_new_recording(self, category):
@@ -843,6 +854,10 @@ class SpyCassette(object):
 
     def abort_recording(self, recording=None):
         self.calls.append(('abort', recording.id))
+        if self.abort_raises:
+            if self.run is not None:
+                self.run.fault('abort_raises')
+            raise IOError('injected: storage fails on abort')
         return self.inner.abort_recording(recording)
 
     def get_recording(self, recording_id):
@@ -1020,7 +1035,8 @@ def outputs_as_map(outputs):
 
 # ---------------------------------------------------------------------------------------------- fault placement
 STEP_FAULTS_IN = ['key_unbuildable', 'handler_raises', 'discard_in_body', 'interrupt_in_body', 'discard_before',
-                  'raise_before', 'interrupt_before', 'force_before', 'force_in_body', 'copy_fails', 'unserializable_value']
+                  'raise_before', 'interrupt_before', 'force_before', 'force_in_body', 'copy_fails', 'unserializable_value',
+                  'fallback_raises']
 STEP_FAULTS_OUT = ['handler_raises', 'discard_in_body', 'interrupt_in_body', 'discard_before', 'raise_before',
                    'interrupt_before', 'force_before', 'force_in_body', 'unserializable_value']
 
@@ -1046,6 +1062,11 @@ def place_fault(spec, st, kind, run):
         return kind
     if kind == 'handler_raises':
         (spec.inputs if st[0] == 'in' else spec.outputs)[st[1]].handler = True
+    if kind == 'fallback_raises':
+        # the key of the main alias is built, the fallback alias function then fails for this call
+        ispec = spec.inputs[st[1]]
+        if ispec.fallback is None or ispec.fallback[0] != 'fn':
+            ispec.fallback = ('fn', ['old_' + ispec.alias])
     if kind == 'copy_fails':
         spec.op.params = dict(spec.op.params or {}, copy_data_on_intercepion=True)
     if kind == 'unserializable_value' and st[0] == 'out':
